@@ -773,10 +773,9 @@ func (channel *Channel) getConsumerByTag(cTag string) *consumer.Consumer {
 }
 
 func (channel *Channel) decQosAndConsumeNext(unackedMessage *UnackedMessage) {
+	// release first, then wake: a consumer woken before the release finds its window still full and goes back to
+	// sleep with nobody left to wake it
 	if cmr := channel.getConsumerByTag(unackedMessage.cTag); cmr != nil {
-		cmr.Consume()
-		verifhook.At("settle.betweenSignalAndRelease")
-
 		for _, amqpQos := range cmr.Qos() {
 			amqpQos.Dec(1, uint32(unackedMessage.msg.BodySize))
 		}
@@ -784,6 +783,37 @@ func (channel *Channel) decQosAndConsumeNext(unackedMessage *UnackedMessage) {
 		channel.qos.Dec(1, uint32(unackedMessage.msg.BodySize))
 		channel.conn.qos.Dec(1, uint32(unackedMessage.msg.BodySize))
 	}
+	verifhook.At("settle.betweenReleaseAndSignal")
+	channel.wakeConsumers()
+}
+
+// wakeConsumers signals every consumer that shares a prefetch window with this channel: the channel window is
+// shared by all consumers of the channel and, in the amqp-0-9-1 dialect, the connection window by all consumers of
+// the connection. Called whenever such a window gains room (a delivery is settled, basic.qos changes the limits).
+func (channel *Channel) wakeConsumers() {
+	channel.wakeOwnConsumers()
+	if channel.server.protoVersion == amqp.Proto091 {
+		// not from this goroutine: Connection.close holds channelsLock while it waits for the channel goroutines
+		verifhook.Sent("conn.wake")
+		go func() {
+			channel.conn.channelsLock.RLock()
+			for _, ch := range channel.conn.channels {
+				if ch != channel {
+					ch.wakeOwnConsumers()
+				}
+			}
+			channel.conn.channelsLock.RUnlock()
+			verifhook.Taken("conn.wake")
+		}()
+	}
+}
+
+func (channel *Channel) wakeOwnConsumers() {
+	channel.cmrLock.RLock()
+	for _, cmr := range channel.consumers {
+		cmr.Consume()
+	}
+	channel.cmrLock.RUnlock()
 }
 
 func (channel *Channel) getExchangeWithError(exchangeName string, method amqp.Method) (ex *exchange.Exchange, err *amqp.Error) {
